@@ -136,6 +136,7 @@ func runC18(c *Ctx) {
 	// clauses this property shares with others (see DESIGN.md section 6a)
 	defer c.ImportRules("C09", "C09.1")
 	defer c.ImportRules("C12", "C12.5")
+	defer c.ImportRules("C12", "C12.7")
 	entry := serveHTTP(p)
 	D, direct := dispatchers(p)
 	reach := p.Reach(entry)
@@ -456,7 +457,7 @@ func runC18(c *Ctx) {
 				// a deferred closure every normal (non-panicking) path of which closes: the only
 				// way round the call is a path that panics again (defect D52: no finalising
 				// while the handler's panic unwinds)
-				if cal.Parent() == fn {
+				if cal.Parent() == fn || (p.inModule(cal) && cal.Parent() == nil) {
 					isClose := func(in ssa.Instruction) bool {
 						ci, ok := in.(ssa.CallInstruction)
 						return ok && ci.Common().StaticCallee() == closeFn
